@@ -164,7 +164,7 @@ Lemma mon_step_accepts : forall c a a' m m' o x rest,
   cfg_ok c -> astep c a o (o_cls x) (o_aflag x) = a' :: rest ->
   m' = apply_delta m (o_delta x) ->
   (exists sm, Inv c sm a' /\ forall t, ostat m' t = use_of sm t) ->
-  mon_step_gen false c a m o x = inl (a', m').
+  mon_step_gen ck_core c a m o x = inl (a', m').
 Proof.
   intros c a a' m m' o x rest LO Ha Em (sm & I & L). unfold mon_step_gen. rewrite Ha, <- Em.
   assert (Hu : forall t, ostat m' t = usage_A a' t) by (intros t; rewrite L; apply (I_num c sm a' I)).
@@ -246,7 +246,7 @@ Theorem monitor_accepts_from : forall c ops st a m i,
   cfg_ok c -> Inv c (scopes st) a -> (forall t, ostat m t = use_of (scopes st) t) ->
   forallb core_shape ops = true ->
   callers_run c a m i (model_trace c st ops) = None ->
-  mon_run_gen false c a m i (model_trace c st ops) = [].
+  mon_run_gen ck_core c a m i (model_trace c st ops) = [].
 Proof.
   intros c ops. induction ops as [|o r IH]; intros st a m i LO I L Sh Cr; [reflexivity|].
   cbn [forallb] in Sh. apply andb_true_iff in Sh. destruct Sh as [Sh1 Sh2].
@@ -269,7 +269,7 @@ Qed.
 Theorem monitor_accepts_core : forall c ops,
   config_wf c = true -> forallb core_shape ops = true ->
   callers_run c astate0 [] 0 (model_trace c (init_state c) ops) = None ->
-  mon_run_gen false c astate0 [] 0 (model_trace c (init_state c) ops) = [].
+  mon_run_gen ck_core c astate0 [] 0 (model_trace c (init_state c) ops) = [].
 Proof.
   intros c ops W Sh Cr. pose proof (config_wf_ok c W) as LO.
   apply (monitor_accepts_from c ops (init_state c) astate0 [] 0 LO (init_inv c LO)); try assumption.
